@@ -1,3 +1,303 @@
-(* C09 — placeholder while the proofs are being written *)
-From Coq Require Import ZArith List.
-From Pymoto Require Import Base.Num Model.Grid Model.Pad Model.Conv Model.DensFilt.
+(* C09 — density filters are the normalised local averages they are defined to be.
+   Statements only; every proof is `exact <lemma>`; Print Assumptions under each.
+   Models: Model/Pad.v (numpy.pad index semantics, _process_padding, overrides, get_padded_vector),
+           Model/Conv.v (FilterConv: valid convolution, scatter, set_filter_radius),
+           Model/DensFilt.v (DensityFilter._calculate_h, Filter base class). *)
+From Coq Require Import ZArith QArith List Reals Bool.
+From Pymoto Require Import Base.Num Model.Grid Model.Pad Model.Conv Model.DensFilt
+     Proofs.GridP Proofs.PadP Proofs.ConvP Proofs.DensFiltP.
+Import ListNotations.
+Open Scope Z_scope.
+
+(* ================================================================= padding = ideal extension *)
+
+(* one axis, any element type: entry i of the array produced by the faithful sequence (wrap on both sides first,
+   then edge 1, then edge 0, each through numpy.pad on the intermediate array) reads what the per-side rule
+   ext1 prescribes - for pad <= n with ANY two modes, and for every pad size when the mode pair is compatible
+   (everything except symmetric-left with a non-symmetric right side, and wrap-left with symmetric-right) *)
+Theorem C09_pad_axis_is_extension : forall (K A : Type) (c d : A) (m0 m1 : bmode K) (p : Z) (l : list A) (i : Z),
+  1 <= Z.of_nat (length l) -> 0 <= p ->
+  (p <= Z.of_nat (length l) \/ modes_compatible m0 m1 = true) ->
+  0 <= i < Z.of_nat (length l) + 2 * p ->
+  nth (Z.to_nat i) (axis_pad c m0 m1 p l) d = reads c l (ext1 m0 m1 (Z.of_nat (length l)) (i - p)).
+Proof. exact @axis_pad_nth. Qed.
+Print Assumptions C09_pad_axis_is_extension.
+
+(* up to one period beyond either boundary the rule is elementary: mirror about the boundary face (-1-i, 2n-1-i),
+   clamp (0, n-1), shift by one period (i+n, i-n), or the constant *)
+Theorem C09_extension_rule_elementary : forall (K : Type) (m0 m1 : bmode K) (n i : Z),
+  1 <= n -> - n <= i < 2 * n -> ext1 m0 m1 n i = ext1_simple m0 m1 n i.
+Proof. exact @ext1_simple_eq. Qed.
+Print Assumptions C09_extension_rule_elementary.
+
+(* C09_pad_is_extension, 3-D: the index array el3d_pad built by the three _process_padding calls equals the ideal
+   extension of the element numbering, each axis independently (0 where a constant is read) *)
+Theorem C09_pad_is_extension : forall (K : Type) (c : padcfg K), pads_nonneg c -> pad_ok c ->
+  forall i j k, 0 <= i < sx1 c + 2 * ppx c -> 0 <= j < sy1 c + 2 * ppy c -> 0 <= k < sz1 c + 2 * ppz c ->
+  nth3 (el3d_pad c) i j k 0 = ext3_idx c (i - ppx c) (j - ppy c) (k - ppz c).
+Proof. exact @el3d_pad_nth3. Qed.
+Print Assumptions C09_pad_is_extension.
+
+(* get_padded_vector (index array + the override index sets stored for constant values, which also cover the
+   corners, + the overrides added by override_values) is the field extended beyond each boundary by the selected
+   rule: x, then y, then z; user overrides on top *)
+Theorem C09_padded_vector_is_extension : forall (K : Type) (H : Num K) (c : padcfg K),
+  pads_nonneg c -> dims_ok c -> pad_ok c ->
+  forall (uov : list (override K)) (x : list K) i j k,
+  0 <= i < sx1 c + 2 * ppx c -> 0 <= j < sy1 c + 2 * ppy c -> 0 <= k < sz1 c + 2 * ppz c ->
+  xpad_at c uov x i j k = apply_ovs uov i j k (ext3 c x (i - ppx c) (j - ppy c) (k - ppz c)).
+Proof. exact @xpad_at_ext3_user. Qed.
+Print Assumptions C09_padded_vector_is_extension.
+
+(* what is NOT covered above (pad > n with an incompatible mode pair) really differs from the periodic per-side
+   rule: the left mirror then reflects the already right-extended array (witness n = 3, pad = 5).
+   The property text does not say what "extended by the selected rule" means there; nothing is claimed. *)
+Theorem C09_pad_mixed_oversize_differs :
+  let l := [10; 11; 12] in
+  let ideal (m0 m1 : bmode Z) := map (fun i => reads 0 l (ext1 m0 m1 3 (i - 5))) (zrange 13) in
+  axis_pad 0 (@BSym Z) BEdge 5 l <> ideal BSym BEdge /\
+  axis_pad 0 (@BSym Z) BWrap 5 l <> ideal BSym BWrap /\
+  axis_pad 0 BSym (BConst 7) 5 l <> ideal BSym (BConst 7) /\
+  axis_pad 0 (@BWrap Z) BSym 5 l <> ideal BWrap BSym.
+Proof. exact axis_pad_mixed_large_differs. Qed.
+Print Assumptions C09_pad_mixed_oversize_differs.
+
+(* ================================================================= FilterConv = convolution with the extension *)
+
+(* np.add.at(y, el3d_orig, y3d): entry (a, b, d) of the valid-mode convolution lands at its element number *)
+Theorem C09_response_scatter : forall (K : Type) (H : Num K),
+  ring_theory nzero none_ nadd nmul nsub nopp (@eq K) ->
+  forall f : @fconv K, let c := fc_pad f in
+  pads_nonneg c -> dims_ok c -> pad_ok c ->
+  shape3 (fc_w f) = (2 * ppx c + 1, 2 * ppy c + 1, 2 * ppz c + 1) ->
+  forall (x : list K) a b d, Z.of_nat (length x) = nel (pg c) ->
+  0 <= a < nelx (pg c) -> 0 <= b < nely (pg c) -> 0 <= d < nz1 (pg c) ->
+  zget (fc_response f x) (elemnumber (pg c) a b d) = fc_y3d_at f x a b d.
+Proof. exact @fc_response_at. Qed.
+Print Assumptions C09_response_scatter.
+
+(* C09_conv_formula : y_e = sum_q w[q] * ext(x)(e - (q - pad))   (kernel flipped; q - pad is the centred offset) *)
+Theorem C09_conv_formula : forall (K : Type) (H : Num K),
+  ring_theory nzero none_ nadd nmul nsub nopp (@eq K) ->
+  forall f : @fconv K, let c := fc_pad f in
+  pads_nonneg c -> dims_ok c -> pad_ok c ->
+  shape3 (fc_w f) = (2 * ppx c + 1, 2 * ppy c + 1, 2 * ppz c + 1) ->
+  forall (x : list K) a b d, Z.of_nat (length x) = nel (pg c) ->
+  0 <= a < nelx (pg c) -> 0 <= b < nely (pg c) -> 0 <= d < nz1 (pg c) ->
+  zget (fc_response f x) (elemnumber (pg c) a b d) =
+  zsum3 (2 * ppx c + 1) (2 * ppy c + 1) (2 * ppz c + 1) (fun qa qb qc =>
+    nmul (wget (fc_w f) qa qb qc)
+         (apply_ovs (fc_uov f) (a + 2 * ppx c - qa) (b + 2 * ppy c - qb) (d + 2 * ppz c - qc)
+            (ext3 c x (a - (qa - ppx c)) (b - (qb - ppy c)) (d - (qc - ppz c))))).
+Proof. exact @fc_conv_formula. Qed.
+Print Assumptions C09_conv_formula.
+
+(* C09_bounds: non-negative kernel summing to one, no constant padding, no overrides => lo <= x <= hi implies
+   lo <= y <= hi (take lo = min x, hi = max x) *)
+Theorem C09_bounds : forall f : @fconv R, let c := fc_pad f in
+  pads_nonneg c -> dims_ok c -> pad_ok c ->
+  shape3 (fc_w f) = (2 * ppx c + 1, 2 * ppy c + 1, 2 * ppz c + 1) ->
+  no_const c -> fc_uov f = [] ->
+  (forall qa qb qc, 0 <= qa < 2 * ppx c + 1 -> 0 <= qb < 2 * ppy c + 1 -> 0 <= qc < 2 * ppz c + 1 ->
+     (0 <= wget (fc_w f) qa qb qc)%R) ->
+  zsum3 (2 * ppx c + 1) (2 * ppy c + 1) (2 * ppz c + 1) (wget (fc_w f)) = 1%R ->
+  forall (x : list R) (lo hi : R) a b d, Z.of_nat (length x) = nel (pg c) ->
+  (forall e, 0 <= e < nel (pg c) -> (lo <= zget x e <= hi)%R) ->
+  0 <= a < nelx (pg c) -> 0 <= b < nely (pg c) -> 0 <= d < nz1 (pg c) ->
+  (lo <= zget (fc_response f x) (elemnumber (pg c) a b d) <= hi)%R.
+Proof. exact fc_bounds. Qed.
+Print Assumptions C09_bounds.
+
+Theorem C09_constant_preserved : forall f : @fconv R, let c := fc_pad f in
+  pads_nonneg c -> dims_ok c -> pad_ok c ->
+  shape3 (fc_w f) = (2 * ppx c + 1, 2 * ppy c + 1, 2 * ppz c + 1) ->
+  no_const c -> fc_uov f = [] ->
+  (forall qa qb qc, 0 <= qa < 2 * ppx c + 1 -> 0 <= qb < 2 * ppy c + 1 -> 0 <= qc < 2 * ppz c + 1 ->
+     (0 <= wget (fc_w f) qa qb qc)%R) ->
+  zsum3 (2 * ppx c + 1) (2 * ppy c + 1) (2 * ppz c + 1) (wget (fc_w f)) = 1%R ->
+  forall (x : list R) (v : R) a b d, Z.of_nat (length x) = nel (pg c) ->
+  (forall e, 0 <= e < nel (pg c) -> zget x e = v) ->
+  0 <= a < nelx (pg c) -> 0 <= b < nely (pg c) -> 0 <= d < nz1 (pg c) ->
+  zget (fc_response f x) (elemnumber (pg c) a b d) = v.
+Proof. exact fc_constant. Qed.
+Print Assumptions C09_constant_preserved.
+
+(* C09_radius_kernel_normalised: the kernel of set_filter_radius (weights / sum(weights)) has the odd shape
+   2*delem+1, is >= 0 and sums to one, whenever the cone table is >= 0 and positive at distance 0 (r > 0) *)
+Theorem C09_radius_kernel_normalised : forall (dlx dly dlz sx sy sz : Z) (wtab : Z -> R),
+  0 <= dlx -> 0 <= dly -> 0 <= dlz -> (forall k, (0 <= wtab k)%R) -> (0 < wtab 0%Z)%R ->
+  let w := radius_kernel dlx dly dlz sx sy sz wtab in
+  shape3 w = (2 * dlx + 1, 2 * dly + 1, 2 * dlz + 1) /\
+  (forall qa qb qc, 0 <= qa < 2 * dlx + 1 -> 0 <= qb < 2 * dly + 1 -> 0 <= qc < 2 * dlz + 1 ->
+     (0 <= wget w qa qb qc)%R) /\
+  zsum3 (2 * dlx + 1) (2 * dly + 1) (2 * dlz + 1) (wget w) = 1%R.
+Proof. exact radius_kernel_normalised. Qed.
+Print Assumptions C09_radius_kernel_normalised.
+
+(* ... and is invariant under the mirror of every axis (so the volume theorem applies to it) *)
+Theorem C09_radius_kernel_mirror : forall (dlx dly dlz sx sy sz : Z) (wtab : Z -> R),
+  let w := radius_kernel dlx dly dlz sx sy sz wtab in
+  forall qa qb qc, 0 <= qa < 2 * dlx + 1 -> 0 <= qb < 2 * dly + 1 -> 0 <= qc < 2 * dlz + 1 ->
+  wget w (2 * dlx - qa) qb qc = wget w qa qb qc /\
+  wget w qa (2 * dly - qb) qc = wget w qa qb qc /\
+  wget w qa qb (2 * dlz - qc) = wget w qa qb qc.
+Proof. exact radius_kernel_mirror. Qed.
+Print Assumptions C09_radius_kernel_mirror.
+
+(* the pad size chosen by set_filter_radius never exceeds the domain: delem = min(n, .) *)
+Theorem C09_radius_pad_within_domain : forall (r dx : Q) (n : Z), radius_delem r dx n <= n.
+Proof. exact radius_delem_le. Qed.
+Print Assumptions C09_radius_pad_within_domain.
+
+(* 1-D core of volume preservation: the window positions that read element j at offsets +t and -t read every
+   element exactly twice in total (any offset t, also beyond the domain size) *)
+Theorem C09_mirror_pair_count : forall (n : Z), 1 <= n -> forall (g : Z -> R) (t : Z),
+  (zsum n (fun a => g (sym_idx n (a + t)%Z)) + zsum n (fun a => g (sym_idx n (a - t)%Z)) = 2 * zsum n g)%R.
+Proof. exact sym_pair_sum. Qed.
+Print Assumptions C09_mirror_pair_count.
+
+(* C09_volume_preserved: six symmetric boundaries, kernel invariant under each axis mirror and summing to one
+   => sum y = sum x  (all pad sizes) *)
+Theorem C09_volume_preserved : forall (f : @fconv R) (x : list R), let c := fc_pad f in
+  pads_nonneg c -> dims_ok c ->
+  shape3 (fc_w f) = (2 * ppx c + 1, 2 * ppy c + 1, 2 * ppz c + 1) ->
+  all_sym c -> fc_uov f = [] ->
+  (forall qa qb qc, 0 <= qa < 2 * ppx c + 1 -> 0 <= qb < 2 * ppy c + 1 -> 0 <= qc < 2 * ppz c + 1 ->
+     wget (fc_w f) (2 * ppx c - qa) qb qc = wget (fc_w f) qa qb qc /\
+     wget (fc_w f) qa (2 * ppy c - qb) qc = wget (fc_w f) qa qb qc /\
+     wget (fc_w f) qa qb (2 * ppz c - qc) = wget (fc_w f) qa qb qc) ->
+  zsum3 (2 * ppx c + 1) (2 * ppy c + 1) (2 * ppz c + 1) (wget (fc_w f)) = 1%R ->
+  Z.of_nat (length x) = nel (pg c) ->
+  nsum (fc_response f x) = nsum x.
+Proof. exact fc_volume_preserved. Qed.
+Print Assumptions C09_volume_preserved.
+
+(* ================================================================= DensityFilter = normalised cone average *)
+
+(* window_complete: outside the +-int(radius) window of element (i,j,k), in any direction, the cone weight is 0,
+   so restricting the assembly to the window loses nothing *)
+Theorem C09_window_complete : forall (r : R) (delem : Z), 0 <= delem -> (r < IZR (delem + 1))%R ->
+  forall wtab : Z -> R, (forall d2, 0 <= d2 -> wtab d2 = Rmax 0 (r - sqrt (IZR d2))) ->
+  forall (g : grid) i j k a b c,
+  0 <= i < nelx g -> 0 <= j < nely g -> 0 <= k < nz1 g ->
+  0 <= a < nelx g -> 0 <= b < nely g -> 0 <= c < nz1 g ->
+  ((a < win_lo i delem \/ win_hi i delem (nelx g) < a) \/
+   (b < win_lo j delem \/ win_hi j delem (nely g) < b) \/
+   (c < win_lo k delem \/ win_hi k delem (nz1 g) < c)) ->
+  cone_H wtab i j k a b c = 0%R.
+Proof. exact window_complete. Qed.
+Print Assumptions C09_window_complete.
+
+(* int(radius) is the floor the theorem above needs *)
+Theorem C09_delem_is_floor : forall q : Q, (0 <= q)%Q ->
+  0 <= dens_delem q /\ (Q2R q < IZR (dens_delem q + 1))%R.
+Proof. exact dens_delem_spec. Qed.
+Print Assumptions C09_delem_is_floor.
+
+(* C09_cone_formula: y_i = sum_j H_ij x_j / sum_j H_ij with H_ij = max(0, r - dist(i, j)) and j ranging over ALL
+   elements of the domain *)
+Theorem C09_cone_formula : forall (g : grid), wf g ->
+  forall (r : R) (delem : Z), 0 <= delem -> (r < IZR (delem + 1))%R ->
+  forall wtab : Z -> R, (forall d2, 0 <= d2 -> wtab d2 = Rmax 0 (r - sqrt (IZR d2))) ->
+  forall i j k, 0 <= i < nelx g -> 0 <= j < nely g -> 0 <= k < nz1 g ->
+  forall (kmax : R -> R -> R) (x : list R),
+  zget (dens_response g delem wtab kmax None x) (elemnumber g i j k) =
+  (zsum3 (nelx g) (nely g) (nz1 g) (fun a b c =>
+      Rmax 0 (r - sqrt (IZR (sq (i - a) + sq (j - b) + sq (k - c)))) * zget x (elemnumber g a b c)) /
+   zsum3 (nelx g) (nely g) (nz1 g) (fun a b c => Rmax 0 (r - sqrt (IZR (sq (i - a) + sq (j - b) + sq (k - c))))))%R.
+Proof. exact dens_cone_formula. Qed.
+Print Assumptions C09_cone_formula.
+
+(* the normalisation s_i = sum_j H_ij is the stored row sum and it is positive (H_ii = r > 0): no division by zero *)
+Theorem C09_cone_rowsum : forall (g : grid), wf g ->
+  forall (r : R) (delem : Z), 0 <= delem -> (r < IZR (delem + 1))%R ->
+  forall wtab : Z -> R, (forall d2, 0 <= d2 -> wtab d2 = Rmax 0 (r - sqrt (IZR d2))) ->
+  forall i j k, 0 <= i < nelx g -> 0 <= j < nely g -> 0 <= k < nz1 g ->
+  rowsum g delem wtab (elemnumber g i j k) =
+  zsum3 (nelx g) (nely g) (nz1 g) (fun a b c => cone_H wtab i j k a b c).
+Proof. exact rowsum_full. Qed.
+Print Assumptions C09_cone_rowsum.
+
+Theorem C09_cone_rowsum_positive : forall (g : grid) (r : R), (0 < r)%R ->
+  forall wtab : Z -> R, (forall d2, 0 <= d2 -> wtab d2 = Rmax 0 (r - sqrt (IZR d2))) ->
+  forall i j k, 0 <= i < nelx g -> 0 <= j < nely g -> 0 <= k < nz1 g ->
+  (0 < zsum3 (nelx g) (nely g) (nz1 g) (fun a b c => cone_H wtab i j k a b c))%R.
+Proof. exact Ssum_pos. Qed.
+Print Assumptions C09_cone_rowsum_positive.
+
+(* elements listed in nonpadding keep exactly that value *)
+Theorem C09_nonpadding_member : forall (g : grid), wf g ->
+  forall (r : R) (delem : Z), 0 <= delem -> (r < IZR (delem + 1))%R ->
+  forall wtab : Z -> R, (forall d2, 0 <= d2 -> wtab d2 = Rmax 0 (r - sqrt (IZR d2))) ->
+  forall i j k, 0 <= i < nelx g -> 0 <= j < nely g -> 0 <= k < nz1 g ->
+  forall (kmax : R -> R -> R) (l : list Z) (x : list R), zmem (elemnumber g i j k) l = true ->
+  zget (dens_response g delem wtab kmax (Some l) x) (elemnumber g i j k) =
+  zget (dens_response g delem wtab kmax None x) (elemnumber g i j k).
+Proof. exact dens_nonpadding_member. Qed.
+Print Assumptions C09_nonpadding_member.
+
+Theorem C09_dens_bounds : forall (g : grid), wf g ->
+  forall (r : R) (delem : Z), 0 <= delem -> (r < IZR (delem + 1))%R -> (0 < r)%R ->
+  forall wtab : Z -> R, (forall d2, 0 <= d2 -> wtab d2 = Rmax 0 (r - sqrt (IZR d2))) ->
+  forall i j k, 0 <= i < nelx g -> 0 <= j < nely g -> 0 <= k < nz1 g ->
+  forall (kmax : R -> R -> R) (x : list R) (lo hi : R),
+  (forall e, 0 <= e < nel g -> (lo <= zget x e <= hi)%R) ->
+  (lo <= zget (dens_response g delem wtab kmax None x) (elemnumber g i j k) <= hi)%R.
+Proof. exact dens_bounds. Qed.
+Print Assumptions C09_dens_bounds.
+
+Theorem C09_dens_constant_preserved : forall (g : grid), wf g ->
+  forall (r : R) (delem : Z), 0 <= delem -> (r < IZR (delem + 1))%R -> (0 < r)%R ->
+  forall wtab : Z -> R, (forall d2, 0 <= d2 -> wtab d2 = Rmax 0 (r - sqrt (IZR d2))) ->
+  forall i j k, 0 <= i < nelx g -> 0 <= j < nely g -> 0 <= k < nz1 g ->
+  forall (kmax : R -> R -> R) (x : list R) (v : R),
+  (forall e, 0 <= e < nel g -> zget x e = v) ->
+  zget (dens_response g delem wtab kmax None x) (elemnumber g i j k) = v.
+Proof. exact dens_constant. Qed.
+Print Assumptions C09_dens_constant_preserved.
+
+(* the block of every element has the announced number nwind of entries: the slice assignments of the assembly
+   loop are shape-consistent and h_rows/h_cols are the concatenation of the blocks *)
+Theorem C09_window_count : forall (K : Type) (g : grid) (delem : Z) (wtab : Z -> K) (el : Z),
+  0 <= delem -> wf g -> 0 <= el < nel g ->
+  Z.of_nat (length (h_row g delem wtab el)) = nwind g delem el.
+Proof. exact @h_row_length. Qed.
+Print Assumptions C09_window_count.
+
+(* the cone matrix is symmetric: _sensitivity may multiply with H instead of its transpose *)
+Theorem C09_cone_symmetric : forall (K : Type) (wtab : Z -> K) i j k a b c,
+  cone_H wtab i j k a b c = cone_H wtab a b c i j k.
+Proof. exact @cone_H_symmetric. Qed.
+Print Assumptions C09_cone_symmetric.
+
+(* ================================================================= non-vacuity *)
+(* ex_f (defined in Proofs/ConvP.v): grid 3 x 2, kernel [[1/8,1/8,0],[1/8,1/4,1/8],[0,1/8,1/8]],
+   xmin symmetric, xmax edge, ymin wrap, ymax constant 5 *)
+(* the hypotheses of the padding / formula theorems hold for a concrete mixed-mode configuration, and the model
+   evaluates to a non-trivial response on it *)
+Example C09_nonvacuous_config :
+  pads_nonneg (fc_pad ex_f) /\ dims_ok (fc_pad ex_f) /\ pad_ok (fc_pad ex_f) /\
+  shape3 (fc_w ex_f) = (2 * ppx (fc_pad ex_f) + 1, 2 * ppy (fc_pad ex_f) + 1, 2 * ppz (fc_pad ex_f) + 1) /\
+  el3d_pad (fc_pad ex_f) = [[[3]; [0]; [3]; [0]]; [[3]; [0]; [3]; [0]]; [[4]; [1]; [4]; [0]]; [[5]; [2]; [5]; [0]];
+                            [[5]; [2]; [5]; [0]]] /\
+  fc_response ex_f [1; 2; 3; 4; 5; 6]%Q = [(11#4); (7#2); (17#4); (29#8); (33#8); (19#4)]%Q.
+Proof. exact ex_config_ok. Qed.
+
+(* the hypotheses of the bounds / volume theorems are satisfiable over R (normalised mirror-symmetric kernel) *)
+Example C09_nonvacuous_kernel : exists f : @fconv R, let c := fc_pad f in
+  pads_nonneg c /\ dims_ok c /\ pad_ok c /\ no_const c /\ all_sym c /\ fc_uov f = [] /\ ppx c = 1 /\ ppy c = 1 /\
+  shape3 (fc_w f) = (2 * ppx c + 1, 2 * ppy c + 1, 2 * ppz c + 1) /\
+  (forall qa qb qc, 0 <= qa < 2 * ppx c + 1 -> 0 <= qb < 2 * ppy c + 1 -> 0 <= qc < 2 * ppz c + 1 ->
+     (0 <= wget (fc_w f) qa qb qc)%R /\
+     wget (fc_w f) (2 * ppx c - qa) qb qc = wget (fc_w f) qa qb qc /\
+     wget (fc_w f) qa (2 * ppy c - qb) qc = wget (fc_w f) qa qb qc /\
+     wget (fc_w f) qa qb (2 * ppz c - qc) = wget (fc_w f) qa qb qc) /\
+  zsum3 (2 * ppx c + 1) (2 * ppy c + 1) (2 * ppz c + 1) (wget (fc_w f)) = 1%R.
+Proof. exact ex_kernel_ok. Qed.
+
+(* the cone hypotheses are satisfiable (r = 3/2, delem = 1) and the window really excludes elements *)
+Example C09_nonvacuous_cone : exists (wtab : Z -> R) (r : R) (delem : Z),
+  0 <= delem /\ (r < IZR (delem + 1))%R /\ (0 < r)%R /\
+  (forall d2, 0 <= d2 -> wtab d2 = Rmax 0 (r - sqrt (IZR d2))) /\
+  (3 < win_lo 5 delem) /\ cone_H wtab 5 0 0 3 0 0 = 0%R.
+Proof. exact ex_cone_ok. Qed.
